@@ -74,6 +74,10 @@ class Corpus:
                 self.add_text(text, origin="interactions")
             for text in GD.composed(irng, 10 if self.tier == "quick" else 80):
                 self.add_text(text, origin="composed")
+            for text in GD.framed(random.Random(self.seed * 7919 + 17)):
+                self.add_text(text, origin="framed")
+            for text in GD.optional_in_sized(random.Random(self.seed * 7919 + 19)):
+                self.add_text(text, origin="optional-in-sized")
             for text in GD.wide(irng, 2 if self.tier == "quick" else 12):
                 self.add_text(text, origin="wide")
         tries = 0
